@@ -75,7 +75,7 @@ pub fn execute(duts: &mut Duts, c: &J) -> J {
     else {
         rec::set_susp(vec![]);
     }
-    let d = duts.get(if c["kind"] == "queue" || c["kind"] == "errtable" { "main" } else { iface });
+    let d = duts.get(if c["kind"] == "queue" || c["kind"] == "errtable" || c["kind"] == "conv" { "main" } else { iface });
     match c["kind"].as_str().unwrap_or("") {
         "run" => {
             if !c.get("keep").and_then(|k| k.as_bool()).unwrap_or(false) {
@@ -235,6 +235,54 @@ pub fn execute(duts: &mut Duts, c: &J) -> J {
                 }
             }));
             return r.unwrap_or_else(|_| json!([{"r": "panic"}]));
+        }
+        "conv" => {
+            // Value -> T through TryInto called directly, by value and by reference (C03)
+            use microscpi::{Error, Value};
+            let t = jbytes(&c["tok"]["t"]);
+            let text = match std::str::from_utf8(&t) {
+                Ok(s) => s,
+                Err(_) => return json!({"r": "skip"}),
+            };
+            let v = match c["tok"]["k"].as_str().unwrap_or("") {
+                "chr" => Value::Characters(text),
+                "dec" => Value::Decimal(text),
+                "hex" => Value::Hexadecimal(text),
+                "bin" => Value::Binary(text),
+                "oct" => Value::Octal(text),
+                "str" => Value::String(text),
+                _ => Value::Arbitrary(&t),
+            };
+            fn out<T: crate::rec::ArgJ>(a: Result<T, Error>, b: Result<T, Error>) -> J {
+                let f = |r: Result<T, Error>| match r {
+                    Ok(x) => json!({"ok": true, "v": x.j()}),
+                    Err(e) => json!({"ok": false, "n": e.number()}),
+                };
+                json!({"r": "conv", "byval": f(a), "byref": f(b)})
+            }
+            macro_rules! go {
+                ($t:ty) => {{
+                    let a: Result<$t, Error> = v.try_into();
+                    let b: Result<$t, Error> = (&v).try_into();
+                    out(a, b)
+                }};
+            }
+            let r = std::panic::catch_unwind(std::panic::AssertUnwindSafe(|| match c["ty"].as_str().unwrap_or("") {
+                "u8" => go!(u8), "i8" => go!(i8), "u16" => go!(u16), "i16" => go!(i16), "u32" => go!(u32), "i32" => go!(i32),
+                "u64" => go!(u64), "i64" => go!(i64), "usize" => go!(usize), "isize" => go!(isize),
+                "f32" => go!(f32), "f64" => go!(f64), "bool" => go!(bool),
+                "str" => go!(&str),
+                _ => {
+                    let b: Result<&[u8], Error> = (&v).try_into();
+                    let f = |r: Result<&[u8], Error>| match r {
+                        Ok(x) => json!({"ok": true, "v": crate::rec::ArgJ::j(&x)}),
+                        Err(e) => json!({"ok": false, "n": e.number()}),
+                    };
+                    let one = f(b);
+                    json!({"r": "conv", "byval": one.clone(), "byref": one})
+                }
+            }));
+            return r.unwrap_or_else(|_| json!({"r": "panic"}));
         }
         "errtable" => {
             // number(), Into<&str>, Display and the Response impl of every standard error
